@@ -8,7 +8,7 @@ From Coq Require Import String.
 From Coq Require Import ZArith List Bool.
 From Coq.Strings Require Import Byte.
 From Verif Require Import Lib.Bytes Crypto.Sha256 Crypto.Ripemd160 Crypto.Hmac Crypto.Secp256k1 Crypto.Group
-  Model.Bip32 Proofs.Bip32Algebra Proofs.Bip32Lib Proofs.Bip32Session.
+  Model.Bip32 Proofs.Bip32Algebra Proofs.Bip32Lib Proofs.Bip32Session Proofs.Bip32Construct.
 From Verif Require Import Gen.GenBip32 Proofs.Bip32Glue.
 Import ListNotations.
 Open Scope Z_scope.
@@ -377,6 +377,37 @@ Example session_witness :
   nth_error (map ans_key a) 1 = Some (Some ex_pub).
 Proof. vm_compute. repeat split. Qed.
 
+(* --- construction forms: however the constructor is given (k, c) — key=/chain= keywords, 64 bytes key||chain,
+   hex / bytes / int / WIF / BIP38 with chain=, a Key or HDKey OBJECT with chain= — the object is the extended key
+   the caller specified, so every derivation is the derivation of that key; the chain code and metadata an imported
+   object carries itself are never consulted; without chain= a plain key gets the documented 32 zero bytes --- *)
+Theorem construction_is_callers_key :
+  forall mat chain m, callers_chain mat chain <> [] -> lib_construct mat chain m = callers_key mat chain m.
+Proof. exact construct_is_callers_key. Qed.
+
+Theorem construction_derives_callers_children :
+  forall mat chain m path, callers_chain mat chain <> [] ->
+  lib_subkey_for_path (lib_construct mat chain m) path = lib_subkey_for_path (callers_key mat chain m) path.
+Proof. exact construct_derivation. Qed.
+
+Theorem construction_ignores_imported_objects_chain :
+  forall k oc om oc' om' chain m,
+  lib_construct (CObject k oc om) chain m = lib_construct (CObject k oc' om') chain m /\
+  lib_construct (CObject k oc om) chain m = lib_construct (CScalar k) chain m.
+Proof. exact construct_object_own_ignored. Qed.
+
+Theorem construction_default_chain :
+  forall k m, lib_construct (CScalar k) [] m = XPrv {| xk := k; xc := zero_chain; xm := m |}.
+Proof. exact construct_default_chain. Qed.
+
+Example construction_witness :
+  let m := {| m_depth := 0; m_pfp := zero_fp; m_index := 0 |} in
+  let c := repeat x01 32 in
+  callers_chain (CObject 5 [] m) c <> [] /\
+  lib_chain (lib_construct (CObject 5 (repeat x02 32) m) c m) = c /\
+  lib_chain (lib_construct (CCat64 5 c) [] m) = c.
+Proof. vm_compute. repeat split. intros E. discriminate E. Qed.
+
 (* what the guard wf_key excludes: with an empty chain code the library keys the HMAC with
    "Bitcoin seed" (HDKey._key_derivation), which is not CKDpriv with an empty chain code *)
 Example empty_chain_refuted :
@@ -413,3 +444,7 @@ Print Assumptions public_object_calls.
 Print Assumptions public_copy_never_private.
 Print Assumptions public_marks_are.
 Print Assumptions wif_child_index_is_serialization.
+Print Assumptions construction_is_callers_key.
+Print Assumptions construction_derives_callers_children.
+Print Assumptions construction_ignores_imported_objects_chain.
+Print Assumptions construction_default_chain.
